@@ -29,7 +29,7 @@ theorem setAt_getD (xs : List Val) (i k : Nat) (v : Val) :
   · have : ¬ (k = i ∧ i < xs.length) := fun hh => h hh.1.symm
     simp [h, this]
 
-theorem setAt_setAt (xs : List Val) (i : Nat) (a b : Val) : setAt (setAt xs i a) i b = setAt xs i b := by
+theorem setAt_setAt_s (xs : List Val) (i : Nat) (a b : Val) : setAt (setAt xs i a) i b = setAt xs i b := by
   simp [setAt]
 
 theorem resetGroup_length (g idx : Nat) (fs : List FieldD) (ss : List Val) (j : Nat) :
